@@ -711,4 +711,144 @@ example : LenOK (fun _ _ => 1) := fun _ _ => by show (0 : Rat) ≤ 1; decide +ke
 example : isVertex (.lineString [(1, 2), (3, 4)]) (3, 4) = true := by decide +kernel
 example : dispatch "Circle" = .error .notImpl := by decide
 
+/-! ### follow-up: histories and call forms -/
+
+/-- **history semantics**: whatever happened before in the process (`pre`: other objects, earlier
+    content of this object, calls, poisoned results), once the object carries the content `g`
+    every call answers exactly what the base operation answers for `g` — the answers of a history
+    are the per-step answers of the pure model, so each step of a run of the real code can be
+    judged on its own -/
+theorem C05_history_pure (lib : Geom → String → Pt) (cur : Option Geom) (pre : List Step) (g : Geom)
+    (qs : List Call) :
+    runHist lib cur (pre ++ .set g :: qs.map .query) = runHist lib cur pre ++ qs.map (answer lib g) := by
+  have hq : ∀ qs : List Call, runHist lib (some g) (qs.map .query) = qs.map (answer lib g) := by
+    intro qs
+    induction qs with
+    | nil => rfl
+    | cons c cs ih => simp [runHist, ih]
+  induction pre generalizing cur with
+  | nil => simp [runHist, hq]
+  | cons s rest ih =>
+    cases s with
+    | set g' => simpa [runHist] using ih (some g')
+    | poison k => simpa [runHist] using ih cur
+    | query c =>
+      cases cur with
+      | none => simp [runHist, ih]
+      | some g' => simp [runHist, ih]
+
+/-- a caller that mutates a value it was handed changes no later answer: the history with the
+    poison steps removed has the same answers -/
+theorem C05_history_poison (lib : Geom → String → Pt) (cur : Option Geom) (steps : List Step) :
+    runHist lib cur (steps.filter (fun s => !s.isPoison)) = runHist lib cur steps := by
+  induction steps generalizing cur with
+  | nil => rfl
+  | cons s rest ih =>
+    cases s with
+    | set g' =>
+      simp only [List.filter_cons, show (Step.set g').isPoison = false from rfl, Bool.not_false, if_true, runHist, ih]
+    | poison k =>
+      simp only [List.filter_cons, show (Step.poison k).isPoison = true from rfl, Bool.not_true, runHist]
+      simp [ih]
+    | query c =>
+      cases cur <;>
+        simp only [List.filter_cons, show (Step.query c).isPoison = false from rfl, Bool.not_false, if_true, runHist, ih]
+
+/-- asking again gives the same answer, and asking in between about other content does not matter:
+    `x, y, x` answers `x` the same both times -/
+theorem C05_history_revisit (lib : Geom → String → Pt) (x y : Geom) (c c' : Call) :
+    runHist lib none [.set x, .query c, .poison 0, .set y, .query c', .set x, .query c]
+      = [answer lib x c, answer lib y c', answer lib x c] := by
+  simp [runHist]
+
+/-- **call forms of `get_geometry_point`** (parameters `n0`, `n1 = d` by default, then parameters
+    with defaults): positional, keyword in either order and mixed calls all bind the geometry `g`
+    and the position `p` to the same parameters; leaving the position out binds the declared
+    default; swapping the positional arguments is another call -/
+theorem C05_call_forms (n0 n1 d g p : String) (rest : List Param) (hn : n0 ≠ n1)
+    (hr : ∀ q ∈ rest, q.dflt.isSome = true ∧ q.name ≠ n0 ∧ q.name ≠ n1) :
+    let sig : List Param := ⟨n0, none⟩ :: ⟨n1, some d⟩ :: rest
+    let tail := rest.map fun q => q.dflt.getD ""
+    bindCall sig [g, p] [] = some (g :: p :: tail) ∧
+    bindCall sig [g] [(n1, p)] = some (g :: p :: tail) ∧
+    bindCall sig [] [(n0, g), (n1, p)] = some (g :: p :: tail) ∧
+    bindCall sig [] [(n1, p), (n0, g)] = some (g :: p :: tail) ∧
+    bindCall sig [g] [] = some (g :: d :: tail) ∧
+    bindCall sig [p, g] [] = some (p :: g :: tail) ∧
+    bindCall sig [g, p] [(n1, p)] = none := by
+  intro sig tail
+  have hn' : n1 ≠ n0 := fun h => hn h.symm
+  have hb : (n0 == n1) = false := by simp [hn]
+  have hb' : (n1 == n0) = false := by simp [hn']
+  have look : ∀ kw : List (String × String), (∀ k ∈ kw, k.1 = n0 ∨ k.1 = n1) →
+      ∀ q ∈ rest, q.dflt.isSome = true ∧ kw.lookup q.name = none := by
+    intro kw hk q hq
+    refine ⟨(hr q hq).1, ?_⟩
+    rw [List.lookup_eq_none_iff]
+    intro k hkm
+    rcases hk k hkm with h | h <;> simp [h, (hr q hq).2.1, (hr q hq).2.2]
+  have t0 := bindArgs_defaults rest [] (look [] (by simp))
+  have t1 := bindArgs_defaults rest [(n1, p)] (look _ (by simp))
+  have t2 := bindArgs_defaults rest [(n0, g), (n1, p)] (look _ (by simp))
+  have t3 := bindArgs_defaults rest [(n1, p), (n0, g)] (look _ (by simp))
+  refine ⟨?_, ?_, ?_, ?_, ?_, ?_, ?_⟩
+  · simp [bindCall, sig, bindArgs, t0, tail]
+  · simp [bindCall, sig, bindArgs, t1, tail, hb, List.lookup]
+  · simp [bindCall, sig, bindArgs, t2, tail, hn, hb, hb', List.lookup]
+  · simp [bindCall, sig, bindArgs, t3, tail, hn', hb, hb', List.lookup]
+  · simp [bindCall, sig, bindArgs, t0, tail]
+  · simp [bindCall, sig, bindArgs, t0, tail]
+  · simp [bindCall, sig, bindArgs, List.lookup, hb]
+
+/-- **call forms of the three one-argument functions**: positionally or by keyword, the same binding -/
+theorem C05_call_forms_unary (n g : String) (rest : List Param)
+    (hr : ∀ q ∈ rest, q.dflt.isSome = true ∧ q.name ≠ n) :
+    let sig : List Param := ⟨n, none⟩ :: rest
+    let tail := rest.map fun q => q.dflt.getD ""
+    bindCall sig [g] [] = some (g :: tail) ∧ bindCall sig [] [(n, g)] = some (g :: tail) ∧
+    bindCall sig [] [] = none := by
+  intro sig tail
+  have look : ∀ kw : List (String × String), (∀ k ∈ kw, k.1 = n) →
+      ∀ q ∈ rest, q.dflt.isSome = true ∧ kw.lookup q.name = none := by
+    intro kw hk q hq
+    refine ⟨(hr q hq).1, ?_⟩
+    rw [List.lookup_eq_none_iff]
+    intro k hkm
+    simp [hk k hkm, (hr q hq).2]
+  have t0 := bindArgs_defaults rest [] (look [] (by simp))
+  have t1 := bindArgs_defaults rest [(n, g)] (look _ (by simp))
+  refine ⟨?_, ?_, ?_⟩
+  · simp [bindCall, sig, bindArgs, t0, tail]
+  · simp [bindCall, sig, bindArgs, t1, tail, List.lookup]
+  · simp [bindCall, sig, bindArgs]
+
+/-- a parameter list that passes `sigOK` is of the shape the call-form theorems speak about -/
+theorem C05_sig_shape (sig : List Param) (h : sigOK sig true = true) :
+    ∃ n0 n1 d rest, sig = ⟨n0, none⟩ :: ⟨n1, some d⟩ :: rest ∧ n0 ≠ n1 ∧ d ∈ positionNames ∧
+      ∀ q ∈ rest, q.dflt.isSome = true ∧ q.name ≠ n0 ∧ q.name ≠ n1 := by
+  match sig, h with
+  | ⟨n0, d0⟩ :: ⟨n1, d1⟩ :: rest, h =>
+    simp only [sigOK, Bool.and_eq_true, decide_eq_true_eq, List.map_cons, List.nodup_cons,
+      List.mem_cons, List.mem_map, not_or, not_exists, not_and, List.all_eq_true] at h
+    obtain ⟨⟨⟨hne, hr0⟩, hr1, _⟩, ⟨hd0, hd1⟩, hrest⟩ := h
+    cases d0 with
+    | some v => simp at hd0
+    | none =>
+      cases d1 with
+      | none => simp at hd1
+      | some d =>
+        refine ⟨n0, n1, d, rest, rfl, hne, by simpa using hd1, ?_⟩
+        intro q hq
+        exact ⟨hrest q hq, hr0 q hq, hr1 q hq⟩
+
+-- non-vacuity of the follow-up additions
+example : sigOK [⟨"geometry", none⟩, ⟨"position", some "bottom-left"⟩] true = true := by decide
+example : sigOK [⟨"geom", none⟩] false = true := by decide
+example : sigOK [⟨"position", some "bottom-left"⟩, ⟨"geometry", none⟩] true = false := by decide
+example : bindCall [⟨"geometry", none⟩, ⟨"position", some "bottom-left"⟩] ["G"] [("position", "center")]
+    = some ["G", "center"] := by decide
+example : bindCall [⟨"geometry", none⟩, ⟨"position", some "bottom-left"⟩] ["G"] [("where", "center")] = none := by decide
+example : runHist (fun _ _ => (0, 0)) none [.set (.timeStamp 3), .query .features, .poison 0, .set (.timeStamp 3), .query .features]
+    = [.ok (.features [("duration", 0)]), .ok (.features [("duration", 0)])] := by decide +kernel
+
 end SE.Proofs.C05
